@@ -46,9 +46,12 @@ pub fn parse_resolve_request(request: spec::ResolveParams) -> Result<(AnyTir, Ar
     let params = tx3_tir::reduce::find_params(&tir);
     let mut args = ArgMap::new();
 
-    for (key, val) in request.args {
+    // explicit args take precedence over values supplied through the environment
+    let env = request.env.unwrap_or_default();
+
+    for (key, val) in env.into_iter().chain(request.args) {
         if let Some(ty) = params.get(&key) {
-            let arg = interop::from_json(val.clone(), &ty)?;
+            let arg = interop::from_json(val, ty)?;
             args.insert(key, arg);
         }
     }
